@@ -130,7 +130,7 @@ theorem refund_verdict {s : State} {id : PoolId} {p : Pool} (hi : Inv s) (hp : g
     rcases hr with ⟨_, hr⟩ | ⟨_, e, hs, hr⟩ | ⟨_, s2, hs, hr⟩
     · right; left; rw [hr]
     · exfalso
-      have hcu := user_ne (hcre ▸ hw.user)
+      have hcu := creator_ne (hcre ▸ hw.user)
       have hcov : ∀ d, sumOf (refundCoins p1.rules) d ≤ (zeroed s1 id p1).bank.balOf farmAcc d := by
         intro d
         have g := hg1 d
